@@ -359,7 +359,14 @@ def evaluate(case):
 
             class CObj(PObj):
                 ATTR_RULES = rules
-            got = CObj.read_list(ws)
+            if case.get("rules_edit") == "in_place":
+                # ... or the class keeps its ATTR_RULES dict and the entries are replaced in it between two reads
+                PObj.ATTR_RULES.clear()
+                PObj.ATTR_RULES.update(rules)
+                got = PObj.read_list(ws)
+                classes.add("rules_dict_changed_in_place_between_reads")
+            else:
+                got = CObj.read_list(ws)
             classes.add("reader_subclass_overrides_rules_parent_used_first")
         else:
             sec = case.get("second_reader") or []
@@ -651,7 +658,7 @@ def st_case(draw):
     return {"title": draw(st.sampled_from(["Sheet1", "My Sheet", "s"])), "lead_blank": draw(st.integers(0, 3)),
             "lead_cols": lead_cols, "columns": [dict({"title": c["title"]}, **({"raw": c["raw"]} if "raw" in c else {})) for c in cols], "attrs": attrs, "rows": rows,
             "end": end, "ladder": ladder, "tail": tail, "entry": entry, "second_reader": second,
-            "ladder_info": sorted(ladder_info)}
+            "ladder_info": sorted(ladder_info), "rules_edit": draw(st.sampled_from(["subclass", "in_place"]))}
 
 
 def eval_bad_cell(case):
